@@ -21,19 +21,26 @@ def legacyGroupsKids : List (String × Obj) → List (String × Obj)
      | .dataset _ _ => []) ++ legacyGroups o ++ legacyGroupsKids rest
 end
 
+/-- axis i of a legacy data group: the 1-based dataset `dim<i+1>` with its `units` and `name` -/
+def legacyDimTriple (kids : List (String × Obj)) (i : Nat) : R (DimArg × String × String) :=
+  match alookup (autoName "dim" (i + 1)) kids with
+  | some (.dataset a (.nums xs)) => do
+    let u ← strAttr (.dataset a (.nums xs)) "units"
+    let nm ← strAttr (.dataset a (.nums xs)) "name"
+    pure (DimArg.vec xs, u, nm)
+  | _ => throw (.error "dim not found")
+
+/-- the `data` dataset of a legacy data group -/
+def legacyData (g : Obj) : R String :=
+  match alookup "data" g.kids with
+  | some (.dataset _ (.tok t)) => pure t
+  | _ => throw (.error "no data")
+
 /-- one legacy data group -> Array: `shapeOf` is the shape h5py reports for the `data` dataset -/
 def importLegacyGroup (ops : NumOps) (shapeOf : String → List Nat) (g : Obj) : R ArrayVal := do
-  let tok ← match alookup "data" g.kids with
-    | some (.dataset _ (.tok t)) => pure t
-    | _ => throw (.error "no data")
+  let tok ← legacyData g
   let shape := shapeOf tok
-  let triples ← (List.range shape.length).mapM (fun i =>
-    match alookup (autoName "dim" (i + 1)) g.kids with
-    | some (.dataset a (.nums xs)) => do
-      let u ← strAttr (.dataset a (.nums xs)) "units"
-      let nm ← strAttr (.dataset a (.nums xs)) "name"
-      pure (DimArg.vec xs, u, nm)
-    | _ => throw (.error "dim not found"))
+  let triples ← (List.range shape.length).mapM (legacyDimTriple g.kids)
   mkArray ops tok shape "" (some (triples.map (·.1))) (some (triples.map (·.2.2))) (some (triples.map (·.2.1))) .none
 
 /-- `root.tree(arr)`: a later array of the same name replaces the earlier one -/
@@ -46,13 +53,17 @@ inductive LegacyOut where
   | many (arrays : List (String × ArrayVal))
   deriving Repr
 
+/-- one data group imported and appended to the list of (name, Array) -/
+def importStep (ops : NumOps) (shapeOf : String → List Nat) (acc : List (String × ArrayVal)) (kg : String × Obj) :
+    R (List (String × ArrayVal)) := do
+  let a ← importLegacyGroup ops shapeOf kg.2
+  pure (acc ++ [(kg.1, a)])
+
 /-- `read_EMD_v0p1(filepath)` -/
 def readLegacy (ops : NumOps) (shapeOf : String → List Nat) (f : Obj) : R LegacyOut := do
   let gs := legacyGroups f
   if gs.isEmpty then throw (.error "No EMD 0.1 groups found!")
-  let arrs ← gs.foldlM (fun acc (kg : String × Obj) => do
-    let a ← importLegacyGroup ops shapeOf kg.2
-    pure (acc ++ [(kg.1, a)])) []
+  let arrs ← gs.foldlM (importStep ops shapeOf) []
   match arrs with
   | [(n, a)] => pure (.single n a)
   | _ => pure (.many (arrs.foldl (fun acc na => setNamed na.1 na.2 acc) []))
